@@ -158,4 +158,45 @@ theorem replace_singleton [BEq α] [LawfulBEq α] (c d : α) (s : List α) :
     replace s [c] [d] = s.map (fun x => if x == c then d else x) := by
   simp [replace, replaceAux_singleton]
 
+/-! ### `replace` of one character by a text is a `flatMap`; indexing and slicing of a non-empty list -/
+
+theorem replaceAux_single [BEq α] [LawfulBEq α] (c : α) (r : List α) (s : List α) :
+    replaceAux [c] r s 0 = s.flatMap (fun x => if x == c then r else [x]) := by
+  induction s with
+  | nil => rfl
+  | cons x t ih =>
+    simp only [replaceAux, isPrefixOf_singleton, List.length_singleton, Nat.sub_self, ih, List.flatMap_cons]
+    by_cases h : c = x
+    · subst h; simp
+    · have h1 : (c == x) = false := by simpa using h
+      have h2 : (x == c) = false := by simpa using fun h' => h h'.symm
+      simp [h1, h2]
+
+theorem replace_single [BEq α] [LawfulBEq α] (c : α) (r s : List α) :
+    replace s [c] r = s.flatMap (fun x => if x == c then r else [x]) := by
+  simp [replace, replaceAux_single]
+
+theorem getItem_zero_cons (x : α) (t : List α) : getItem (x :: t) 0 = .ok x := by
+  simp [getItem]
+
+theorem getItem_neg_one_cons (x : α) (t : List α) :
+    getItem (x :: t) (-1) = .ok ((x :: t).getLast (by simp)) := by
+  unfold getItem
+  have h1 : ((-1 : Int) < 0) := by omega
+  have h2 : ¬ ((-1 : Int) + ((x :: t).length : Nat) < 0) := by simp; omega
+  have h3 : ((-1 : Int) + ((x :: t).length : Nat)).toNat = t.length := by simp; omega
+  simp only [h1, if_true, h2, if_false, h3]
+  rw [List.getLast_eq_getElem]
+  simp
+
+theorem slice_one_neg_one (x : α) (t : List α) :
+    slice (x :: t) (some 1) (some (-1)) = t.dropLast := by
+  unfold slice clamp
+  simp
+  have h : (-1 + ((t.length : Int) + 1)).toNat = t.length := by omega
+  rw [h, List.dropLast_eq_take]
+  cases t with
+  | nil => simp
+  | cons y t' => simp [List.take_succ_cons]
+
 end Wz.Pre
